@@ -191,4 +191,15 @@ claim('C19',
 
 na('C09', 'bijectivity/counting of the Sp(2n,F2) indexing and the transvection lemma are properties of runtime bit vectors under data-dependent branching; no code-shape clause of substance')
 na('C14', 'group axioms of computed Cayley tables, partition and tableau counts are value-level combinatorics; only a 4x4 literal is visible statically')
-na('C17', 'partial-trace index lists are computed at run time and the Dicke reduction is occupation-number arithmetic; no structural clause that is a necessary condition of the property')
+claim('C17',
+      'Decides the relabelling clauses: numqi.utils.partial_trace contracts with legs rows=range(N0), cols=range(N0,2N0) where exactly the '
+      'complement of the sorted, de-duplicated keep set shares one leg between row and column, and returns kept rows then kept columns in '
+      'the same order (PT1, symbolic typing of the run-time leg lists - the einsum then IS the explicit contraction); the Dicke '
+      'reduction table pairs k with k - e_r + e_s and reads the decremented slot on the source and the incremented slot on the target '
+      'tuple (PT2); partial_trace_ABk_to_AB conjugates the bra factor only, uses (I,J,value) in table order and reorders (A,A\',r,s) to '
+      '(A,r,A\',s) in both backends, whose arms are the same computation (PT3, B1). Orthonormality and permutation invariance of the Dicke '
+      'vectors and the occupation-number identity itself are value-level and NOT decided.',
+      'Trusted: NumPy einsum semantics for integer leg lists; the idiom table of PT1 (a different way of building the legs is reported as '
+      'analysis error, never as a violation).',
+      'ast idiom typing of run-time einsum leg lists + sibling backend-arm comparison',
+      'DESIGN.md 4 (PT), 5 C17')
